@@ -1,7 +1,9 @@
 (* runner.rs: exec() and the arms of the core note language, as an instantiation of the generic
    pos/loop_stack machine (LoopMachine.v).  The machine state is `res song`: a panic / unsupported
    construct / exhausted fuel halts it (like break_flag), so errors propagate to the result. *)
-From Sakura.Model Require Import Base Cursor Length Event Song Token LoopMachine LexCore Tie.
+From Sakura.Model Require Import Base Cursor Length Event Song Token LoopMachine LexCore Tie RunRsv.
+From Sakura.Model Require Reserve.
+From Sakura.Model Require Cmd.   (* the event shapes of the command arms (property C15): used qualified *)
 From Sakura.Gen Require Import Messages.
 From Coq Require Import String.
 Open Scope string_scope.
@@ -24,8 +26,10 @@ Definition note_number (s : song) (base flag natural oct : Z) : Z :=
     n0 + (if natural =? 0 then key_flag_at s no else 0) + s_key_shift s + tr_track_key trk
   else n0.
 
-(* the tail of exec_note / exec_note_n: advance, octave_once, chord collection, event *)
+(* the tail of exec_note / exec_note_n: advance, octave_once, chord collection, controller reservations, event.
+   start_pos is the pointer on entry. *)
 Definition emit_note (s : song) (ev : event) (notelen : Z) (is_lettered : bool) (slur : Z) : res song :=
+  let start_pos := tr_timepos (cur_track s) in
   let s1 := upd_cur s (fun t => tr_set_timepos t (tr_timepos t + notelen)) in
   if is_lettered then
     let s2 := if s_octave_once s1 =? 0 then s1
@@ -36,30 +40,46 @@ Definition emit_note (s : song) (ev : event) (notelen : Z) (is_lettered : bool) 
     else if slur >=? 1 then Ok (upd_cur s2 (fun t => push_tie_note t ev))
     else if negb (match tr_tie_notes (cur_track s2) with [] => true | _ => false end) then
       Ok (upd_cur s2 (fun t => check_tie_notes (s_timebase s2) (push_tie_note t ev)))
-    else Ok (upd_cur s2 (fun t => tr_push_event t ev))
+    else Ok (upd_cur s2 (fun t => tr_push_event (write_cc_notes t start_pos) ev))
   else
     (* exec_note_n never looks at the '&' of a numbered note *)
-    Ok (upd_cur s (fun t => tr_set_timepos (tr_push_event t ev) (tr_timepos t + notelen))).
+    Ok (upd_cur s (fun t => tr_set_timepos (tr_push_event (write_cc_notes t (tr_timepos t)) ev) (tr_timepos t + notelen))).
 
+(* the reservations and random widths of the current track applied to the values of one note:
+   (velocity, timing, gate, absolute octave or -1, reserved length or -1) and the seed after the draws *)
 Definition exec_note (s : song) (base flag natural : Z) (len : list ch) (qlen vel timing oct slur : Z) : res song :=
   let trk := cur_track s in
   let q := if qlen =? 0 then tr_qlen trk else qlen in
   let v := if vel <? 0 then tr_velocity trk else vel in
   let t := if timing =? ISIZE_MIN then tr_timing trk else timing in
   let no := note_number s base flag natural oct in
-  let notelen := calc_length len (s_timebase s) (tr_length trk) in
-  let ev := ev_note (tr_timepos trk + t) (tr_channel trk) (value_range 0 no 127) (note_len_real notelen q) (value_range 0 v 127) in
-  emit_note s ev notelen true slur.
+  let '(v1, t1, q1, o_abs, l_on) := fst (rsv_on_note (to_rtrack trk) v t q) in
+  let no1 := if o_abs =? -1 then no else Z.rem no 12 + o_abs * 12 in
+  let r := tr_rsv trk in
+  let '(no2, sd1) := draw_octave (s_rand_seed s) no1 (rv_o_rand r) in
+  let '(v2, sd2) := draw sd1 v1 (rv_v_rand r) in
+  let '(t2, sd3) := draw sd2 t1 (rv_t_rand r) in
+  let '(q2, sd4) := draw sd3 q1 (rv_q_rand r) in
+  let notelen0 := calc_length len (s_timebase s) (tr_length trk) in
+  let notelen := if l_on =? -1 then notelen0 else l_on in
+  let ev := ev_note (tr_timepos trk + t2) (tr_channel trk) (value_range 0 no2 127) (note_len_real notelen q2) (value_range 0 v2 127) in
+  emit_note (s_set_rand_seed (upd_cur s (fun x => rsv_advance x v t q)) sd4) ev notelen true slur.
 
 Definition exec_note_n (s : song) (no : Z) (len : list ch) (qlen vel timing slur : Z) : res song :=
   let trk := cur_track s in
-  let notelen := calc_length len (s_timebase s) (tr_length trk) in
+  let notelen0 := calc_length len (s_timebase s) (tr_length trk) in
   let q := if negb (qlen =? 0) then qlen else tr_qlen trk in
   let v := if vel >=? 0 then vel else tr_velocity trk in
   let t := if negb (timing =? ISIZE_MIN) then timing else tr_timing trk in
-  let ev := ev_note (tr_timepos trk + t) (tr_channel trk)
-                    (value_range 0 (no + tr_track_key trk + s_key_shift s) 127) (note_len_real notelen q) (value_range 0 v 127) in
-  emit_note s ev notelen false slur.
+  let '(v1, t1, q1, _, l_on) := fst (rsv_on_note (to_rtrack trk) v t q) in
+  let notelen := if l_on =? -1 then notelen0 else l_on in
+  let r := tr_rsv trk in
+  let '(v2, sd2) := draw (s_rand_seed s) v1 (rv_v_rand r) in
+  let '(t2, sd3) := draw sd2 t1 (rv_t_rand r) in
+  let '(q2, sd4) := draw sd3 q1 (rv_q_rand r) in
+  let ev := ev_note (tr_timepos trk + t2) (tr_channel trk)
+                    (value_range 0 (no + tr_track_key trk + s_key_shift s) 127) (note_len_real notelen q2) (value_range 0 v2 127) in
+  emit_note (s_set_rand_seed (upd_cur s (fun x => rsv_advance x v t q)) sd4) ev notelen false slur.
 
 Definition exec_rest (s : song) (dir : Z) (len : list ch) : song :=
   upd_cur s (fun t => tr_set_timepos t (tr_timepos t + calc_length len (s_timebase s) (tr_length t) * dir)).
@@ -152,6 +172,48 @@ Definition ls_of_song (s : song) : lexstate := mkLex (s_timebase s) (s_logs s) (
 Definition song_with_ls (s : song) (ls : lexstate) : song :=
   s_set_rhythm (s_set_vars (s_set_logs (s_set_timebase s (lx_timebase ls)) (lx_logs ls)) (lx_vars ls)) (lx_rhythm ls).
 
+(* song.add_event for the events of one command arm (shapes: model/Cmd.v), at the pointer / channel of the current track *)
+Definition add_events (s : song) (f : Z -> Z -> list event) : song :=
+  let trk := cur_track s in
+  upd_cur s (fun t => tr_push_events t (f (tr_timepos trk) (tr_channel trk))).
+
+(* exec_cc_rpn_nrpn_direct *)
+Definition exec_rpn_direct (s : song) (nrpn : bool) (args : list Z) : song :=
+  match args with
+  | [_; _; _] => add_events s (fun tp ch => if nrpn then Cmd.cmd_nrpn_direct tp ch args else Cmd.cmd_rpn_direct tp ch args)
+  | _ => runtime_error s (zs "RPN/NRPN needs 3 arguments")
+  end.
+
+(* exec_play: every part on its own track (1, 2, ...), all from the pointer of the current track; the end is the latest
+   end; all tracks are aligned there; the current track is restored.  `ec` = exec() for the tokens of a part.
+   A part that is no string evaluates to its decimal text (an empty one to "0"). *)
+Definition play_text (a : option marg) : list ch :=
+  match a with Some (MStr t) => t | Some (MInt v) => show_int v | None => [48] end.
+Fixpoint play_parts (ec : list tok -> res song -> res song) (lineno start_pos : Z) (args : list (option marg))
+                    (index : nat) (s : song) (last : Z) : res (song * Z) :=
+  match args with
+  | [] => Ok (s, last)
+  | a :: r =>
+      let s2 := upd_cur (change_cur_track s index) (fun t => tr_set_timepos t start_pos) in
+      do lx <- lex (ls_of_song s2) (play_text a) lineno;
+      let '(toks, ls') := lx in
+      do s3 <- ec toks (Ok (song_with_ls s2 ls'));
+      let tp := tr_timepos (cur_track s3) in
+      play_parts ec lineno start_pos r (S index) s3 (if tp >? last then tp else last)
+  end.
+Definition exec_play (ec : list tok -> res song -> res song) (s : song) (args : list (option marg)) (lineno : Z) : res song :=
+  (* track numbers stay within 0..999 as for TR() *)
+  if (999 <? zlen args) || (999 <? Z.of_nat (s_cur s)) then Unsupported U_RUN_TRACKNO
+  else
+    let start_pos := tr_timepos (cur_track s) in
+    do r <- play_parts ec lineno start_pos args 1 s start_pos;
+    let '(s4, last) := r in
+    Ok (change_cur_track (track_sync (upd_cur s4 (fun t => tr_set_timepos t last))) (s_cur s)).
+
+(* the DefStr arm: the value of the (literal) expression; exec_value of nothing is Int 0 *)
+Definition def_str_value (v : option marg) : vval :=
+  match v with Some (MStr t) => VStr t 0 | Some (MInt z) => VInt z | None => VInt 0 end.
+
 Section Exec.
   (* exec() of the children of Sub / Div: supplied with one unit less of nesting fuel *)
   Variable exec_children : list tok -> res song -> res song.
@@ -162,18 +224,18 @@ Section Exec.
     | TNote base flag natural len qlen vel timing oct slur => exec_note s base flag natural len qlen vel timing oct slur
     | TNoteN no len qlen vel timing slur => exec_note_n s no len qlen vel timing slur
     | TRest dir len => Ok (exec_rest s dir len)
-    | TLength len => Ok (upd_cur s (fun t => tr_set_length t (calc_length len (s_timebase s) (s_timebase s))))
-    | TOctave v => Ok (upd_cur s (fun t => tr_set_octave t (value_range 0 v 10)))
+    | TLength len => Ok (upd_cur s (fun t => tr_set_length (rsv_clear Reserve.WL t) (calc_length len (s_timebase s) (s_timebase s))))
+    | TOctave v => Ok (upd_cur s (fun t => tr_set_octave (rsv_clear Reserve.WO t) (value_range 0 v 10)))
     | TOctaveRel v => Ok (upd_cur s (fun t => tr_set_octave t (value_range 0 (tr_octave t + v) 10)))
     | TOctaveOnce v =>
         Ok (s_set_octave_once (upd_cur s (fun t => tr_set_octave t (value_range 0 (tr_octave t + v) 10))) (s_octave_once s + v))
     | TVelocity v ino =>
         if ino >? 0 then Unsupported U_RUN_VSUB
-        else Ok (upd_cur s (fun t => tr_set_velocity t (value_range 0 v 127)))
+        else Ok (upd_cur s (fun t => tr_set_velocity (rsv_clear Reserve.WV t) (value_range 0 v 127)))
     | TVelocityRel v => Ok (upd_cur s (fun t => tr_set_velocity t (value_range 0 (tr_velocity t + s_v_add s * v) 127)))
-    | TQLen v => Ok (upd_cur s (fun t => tr_set_qlen t (value_range 0 v 100)))
+    | TQLen v => Ok (upd_cur s (fun t => tr_set_qlen (rsv_clear Reserve.WQ t) (value_range 0 v 100)))
     | TQLenRel v => Ok (upd_cur s (fun t => tr_set_qlen t (tr_qlen t + s_q_add s * v)))
-    | TTiming v => Ok (upd_cur s (fun t => tr_set_timing t v))
+    | TTiming v => Ok (upd_cur s (fun t => tr_set_timing (rsv_clear Reserve.WT t) v))
     | TLoopBegin _ | TLoopBreak | TLoopEnd => Ok s          (* handled by the machine *)
     | THarmonyBegin => Ok (s_set_harmony s true (tr_timepos (cur_track s)) (s_harmony_events s))
     | THarmonyEnd len qlen vel => Ok (exec_harmony_end s len qlen vel)
@@ -225,6 +287,28 @@ Section Exec.
         exec_children toks (Ok (song_with_ls s1 ls'))
     | TVAdd v => Ok (s_set_adds s v (s_q_add s))
     | TQAdd v => Ok (s_set_adds s (s_v_add s) v)
+    | TCC no v =>
+        (* trk.remove_cc_on_note_wave(no); add_event(cc) *)
+        Ok (add_events (upd_cur s (fun t => on_rt t (fun k => Reserve.remove_cc_on_note_wave k no))) (fun tp ch => Cmd.cmd_cc tp ch no v))
+    | TPitchBend big v => Ok (add_events s (fun tp ch => Cmd.cmd_pitch_bend tp ch (negb (big =? 0)) v))
+    | TRpnCmd nrpn msb lsb v =>
+        Ok (add_events s (fun tp ch => if nrpn then Cmd.cmd_nrpn tp ch msb lsb v else Cmd.cmd_rpn tp ch msb lsb v))
+    | TRpnDirect nrpn args => Ok (exec_rpn_direct s nrpn args)
+    | TRandom w r => Ok (upd_cur s (rsv_set_rand w r))
+    | TOnNote w cyc ia => Ok (upd_cur s (rsv_set_on_note w cyc ia))
+    | TVOnTime ia => Ok (upd_cur s (rsv_set_v_on_time ia))
+    | TCCOnTime no ia => Ok (upd_cur s (fun t => on_rt t (fun k => Reserve.write_cc_on_time (Reserve.remove_cc_on k no) no ia)))
+    | TCCOnNote no ia => Ok (upd_cur s (fun t => on_rt t (fun k => Reserve.set_cc_on_note k no ia)))
+    | TCCOnNoteWave no ia => Ok (upd_cur s (fun t => on_rt t (fun k => Reserve.set_cc_on_note_wave k no ia)))
+    | TCCFreq v => Ok (upd_cur s (fun t => on_rt t (fun k => Reserve.set_freq k v)))
+    | TPBOnTime big ia => Ok (upd_cur s (fun t => on_rt t (fun k => Reserve.write_pb_on_time k big ia (s_timebase s))))
+    | TDecresc len v1 v2 =>
+        (* exec_decres: an empty length means a whole note; no remove_cc_on here *)
+        let len_s := match len with [] => [49] | _ => len end in
+        Ok (upd_cur s (fun t => on_rt t (fun k =>
+              Reserve.write_cc_on_time k 11 [v1; v2; calc_length len_s (s_timebase s) (tr_length t)])))
+    | TPlay args lineno => exec_play exec_children s args lineno
+    | TDefStr name v => Ok (s_set_vars s ((name, def_str_value v) :: s_vars s))
     end.
 
   Definition step_tok (t : tok) (s : res song) : res song := do sg <- s; step_song t sg.
